@@ -106,7 +106,7 @@ __CPROVER_requires(LIST_IS_EMPTY(&SOCK->busy_pipes))
 __CPROVER_requires(LIST_IS_EMPTY(&P1->contexts))
 #endif
 #endif
-__CPROVER_assigns(SOCK->send_queue.ll_head, SOCK->ready_pipes.ll_head, SOCK->busy_pipes.ll_head, SOCK->retry_queue.ll_head, VP_PROTO_GHOST_LIST, VP_RR_GHOST_LIST)
+__CPROVER_assigns(SOCK->send_queue.ll_head, SOCK->ready_pipes.ll_head, SOCK->busy_pipes.ll_head, SOCK->retry_queue.ll_head, VP_PROTO_GHOST_LIST, VP_RR_GHOST_LIST, VPX_FIN_GHOSTS)
 #if RS_SQ >= 1
 __CPROVER_assigns(C1->send_node, C1->retry_node, C1->pipe_node, C1->send_aio, C1->req_msg->m_refcnt; C1->send_aio != NULL: C1->send_aio->a_count)
 #if RS_PN == 1
@@ -317,7 +317,7 @@ __CPROVER_requires(DISTINCT(g_c1, g_c2) && LIST_IS_TWO(&PCP->contexts, &C1->pipe
 /* the retry schedule holds exactly the contexts with resending enabled, the send queue those already waiting */
 __CPROVER_requires(LIST_BY(&SOCK->retry_queue, PC_R1, &C1->retry_node, PC_R2, &C2->retry_node))
 __CPROVER_requires(LIST_BY(&SOCK->send_queue, PC_Q1, &C1->send_node, PC_Q2, &C2->send_node))
-__CPROVER_assigns(PCP->closed, PCP->node, PCP->contexts.ll_head, SOCK->stop_pipes.ll_head, SOCK->ready_pipes.ll_head, SOCK->busy_pipes.ll_head, SOCK->send_queue.ll_head, SOCK->retry_queue.ll_head, VP_PROTO_GHOST_LIST, VP_RR_GHOST_LIST, VP_SYNC_GHOSTS, g_free_calls)
+__CPROVER_assigns(PCP->closed, PCP->node, PCP->contexts.ll_head, SOCK->stop_pipes.ll_head, SOCK->ready_pipes.ll_head, SOCK->busy_pipes.ll_head, SOCK->send_queue.ll_head, SOCK->retry_queue.ll_head, VP_PROTO_GHOST_LIST, VP_RR_GHOST_LIST, VP_SYNC_GHOSTS, g_free_calls, VPX_FIN_GHOSTS)
 #if PC_RP == 1
 __CPROVER_assigns(P2->node, P2->contexts.ll_head, P2->aio_send.a_msg)
 #endif
@@ -385,6 +385,320 @@ __CPROVER_ensures(LIST_IS_EMPTY(&SOCK->send_queue))
 __CPROVER_ensures(g_pipe_send_calls == OLD(g_pipe_send_calls) && LIST_IS_ONE(&SOCK->ready_pipes, &P2->node) && LIST_IS_EMPTY(&SOCK->busy_pipes) && LIST_IS_EMPTY(&P2->contexts))
 __CPROVER_ensures(LIST_BY(&SOCK->send_queue, PC_Q1, &C1->send_node, PC_Q2, &C2->send_node))
 __CPROVER_ensures(LIST_BY(&SOCK->retry_queue, PC_R1, &C1->retry_node, PC_R2, &C2->retry_node))
+#endif
+#endif
+;
+
+/* ====================================================================== */
+/* The state of ONE context C1 as the request state machine leaves it, built by the harness (vp_ctx_state):
+ * -DX_ST=0 idle: no request (never made / cancelled / answered and received); on no list
+ *        1 send pending: the request waits for a pipe: send_aio set, req_msg held for the caller, on the send
+ *          queue; on the retry schedule iff resending is enabled (-DX_RT=1 <=> req_retry > 0)
+ *        2 outstanding: the request went out on pipe P3 (C1 is on P3's context list); send_aio == NULL;
+ *          -DX_RM=1: retained copy owned by the context (resending enabled: on the retry schedule),
+ *          -DX_RM=2: not retained (resending disabled: ctx->req_msg dangles, not on the retry schedule);
+ *          -DX_SQ=1: additionally waiting on the send queue for a resend (only with X_RM=1)
+ *        3 answered, reply stored (rep_msg set, req_msg == NULL, id released); still on P3's list and, with
+ *          -DX_RT=1, on the retry schedule (req0_recv_cb leaves both)
+ * -DX_RA: the pending receive: 0 none, 1 the aio passed to the function under test, 2 another aio
+ * -DX_SA: (X_ST=1) the pending send: 1 the aio passed to the function under test, 2 another aio
+ * -DREQ_CM=1: C1 is the socket's own context. */
+#ifndef X_ST
+#define X_ST 0
+#endif
+#ifndef X_RT
+#define X_RT 0
+#endif
+#ifndef X_RM
+#define X_RM 1
+#endif
+#ifndef X_SQ
+#define X_SQ 0
+#endif
+#ifndef X_RA
+#define X_RA 0
+#endif
+#ifndef X_SA
+#define X_SA 2
+#endif
+#define X_ON_RETRY ((X_ST == 1 && X_RT == 1) || (X_ST == 2 && X_RM == 1) || (X_ST == 3 && X_RT == 1))
+#define X_ON_SENDQ (X_ST == 1 || (X_ST == 2 && X_SQ == 1))
+#define X_ON_PIPE (X_ST == 2 || X_ST == 3)
+#define AIO_A ((nni_aio *) g_aio1)
+#define AIO_B ((nni_aio *) g_aio2)
+#define AIO_C ((nni_aio *) g_aio3)
+#define X_AIOS_PRE (OBJ_OK(g_aio1, nni_aio) && OBJ_OK(g_aio2, nni_aio) && OBJ_OK(g_aio3, nni_aio) && DISTINCT(g_aio1, g_aio2) && DISTINCT(g_aio1, g_aio3) && DISTINCT(g_aio2, g_aio3))
+#define X_RECV_AIO_PRE (C1->recv_aio == (X_RA == 0 ? NULL : X_RA == 1 ? AIO_A : AIO_C))
+#define X_SEND_AIO_PRE (C1->send_aio == (X_ST != 1 ? NULL : X_SA == 1 ? AIO_A : AIO_B))
+#define X_LISTS_PRE                                                                                 \
+	((X_ON_RETRY ? LIST_IS_ONE(&SOCK->retry_queue, &C1->retry_node) : (LIST_IS_EMPTY(&SOCK->retry_queue) && NODE_IDLE(&C1->retry_node))) && \
+	    (X_ON_SENDQ ? LIST_IS_ONE(&SOCK->send_queue, &C1->send_node) : (LIST_IS_EMPTY(&SOCK->send_queue) && NODE_IDLE(&C1->send_node))) && \
+	    (X_ON_PIPE ? (PIPE_OK(g_pp3) && LIST_IS_ONE(&P3->contexts, &C1->pipe_node)) : NODE_IDLE(&C1->pipe_node)))
+/* scalar part of each state */
+#if X_ST == 0
+#define X_STATE_PRE (C1->req_msg == NULL && C1->request_id == 0)
+#define X_MSGS_PRE (MSG_OPT(C1->rep_msg))
+#elif X_ST == 1
+#define X_STATE_PRE (C1->rep_msg == NULL && C1->request_id >= 0x80000000u && (X_RT ? C1->req_retry > 0 : C1->req_retry <= 0) && MSGOBJ_PRE(C1->req_msg) && C1->req_msg->m_header_len <= MSG_HDRCAP)
+#define X_MSGS_PRE (1)
+#elif X_ST == 2 && X_RM == 1
+#define X_STATE_PRE (C1->rep_msg == NULL && C1->request_id >= 0x80000000u && C1->req_retry > 0)
+#define X_MSGS_PRE (MSG_PRE(C1->req_msg) && C1->req_msg->m_refcnt.v < 1000)
+#elif X_ST == 2
+#define X_STATE_PRE (C1->rep_msg == NULL && C1->request_id >= 0x80000000u && C1->req_retry <= 0 && C1->req_msg != NULL)
+#define X_MSGS_PRE (1)
+#else
+#define X_STATE_PRE (C1->req_msg == NULL && C1->request_id == 0 && (X_RT ? C1->req_retry > 0 : C1->req_retry <= 0))
+#define X_MSGS_PRE (MSG_PRE(C1->rep_msg))
+#endif
+#define X_CTX_PRE (SOCK_PRE && Q_C1_PRE && X_AIOS_PRE && X_RECV_AIO_PRE && X_SEND_AIO_PRE && X_LISTS_PRE && X_STATE_PRE)
+#define X_CTX_ASSIGNS C1->send_node, C1->pipe_node, C1->retry_node, C1->request_id, C1->req_msg, C1->rep_msg, C1->recv_aio, C1->send_aio, C1->conn_reset, \
+    SOCK->send_queue.ll_head, SOCK->retry_queue.ll_head, VP_PROTO_GHOST_LIST, VP_RR_GHOST_LIST, VP_SYNC_GHOSTS, VPX_FIN_GHOSTS, g_free_calls
+/* what req0_ctx_reset may release: the retained copy (owned only) and a stored reply */
+#if X_ST == 2 && X_RM == 1
+#define X_RESET_FREES __CPROVER_assigns(*(C1->req_msg)) __CPROVER_frees(C1->req_msg, C1->req_msg->m_body.ch_buf)
+#elif X_ST == 3
+#define X_RESET_FREES __CPROVER_assigns(*(C1->rep_msg)) __CPROVER_frees(C1->rep_msg, C1->rep_msg->m_body.ch_buf)
+#elif X_ST == 0
+#define X_RESET_FREES __CPROVER_assigns(C1->rep_msg != NULL: *(C1->rep_msg)) __CPROVER_frees(C1->rep_msg != NULL: C1->rep_msg, C1->rep_msg->m_body.ch_buf)
+#else
+#define X_RESET_FREES
+#endif
+#if X_ON_PIPE
+#define X_PIPE_ASSIGNS __CPROVER_assigns(P3->contexts.ll_head)
+#define X_OFF_PIPE (LIST_IS_EMPTY(&P3->contexts))
+#define X_STILL_ON_PIPE (LIST_IS_ONE(&P3->contexts, &C1->pipe_node))
+#else
+#define X_PIPE_ASSIGNS
+#define X_OFF_PIPE (1)
+#define X_STILL_ON_PIPE (NODE_IDLE(&C1->pipe_node))
+#endif
+/* the request is gone (C04 state reset): id released (a late reply cannot match any more), no retained copy,
+ * no stored reply, on no list, nothing latched: a receive now yields NNG_ESTATE */
+#define X_DISCARDED (CTX_IS_RESET(C1) && C1->send_aio == NULL && LIST_IS_EMPTY(&SOCK->send_queue) && LIST_IS_EMPTY(&SOCK->retry_queue) && X_OFF_PIPE)
+#define X_ID_RELEASED (IDM_TRACKS(OLD(C1->request_id)) ==> !g_rr.idm_has)
+/* ownership of what the discarded request held (C03): the retained copy is released exactly once iff owned */
+#if X_ST == 2 && X_RM == 1
+#define X_DISCARD_HEAP \
+	__CPROVER_ensures(OLD(C1->req_msg->m_refcnt.v) > 1 ==> (OLD(C1->req_msg)->m_refcnt.v == OLD(C1->req_msg->m_refcnt.v) - 1 && g_free_calls == OLD(g_free_calls))) \
+	__CPROVER_ensures(OLD(C1->req_msg->m_refcnt.v) == 1 ==> (__CPROVER_was_freed(OLD(C1->req_msg)) && g_free_calls == OLD(g_free_calls) + 2))
+#elif X_ST == 3
+#define X_DISCARD_HEAP \
+	__CPROVER_ensures(OLD(C1->rep_msg->m_refcnt.v) > 1 ==> (OLD(C1->rep_msg)->m_refcnt.v == OLD(C1->rep_msg->m_refcnt.v) - 1 && g_free_calls == OLD(g_free_calls))) \
+	__CPROVER_ensures(OLD(C1->rep_msg->m_refcnt.v) == 1 ==> (__CPROVER_was_freed(OLD(C1->rep_msg)) && g_free_calls == OLD(g_free_calls) + 2))
+#elif X_ST == 0
+#define X_DISCARD_HEAP \
+	__CPROVER_ensures(OLD(C1->rep_msg) == NULL ==> g_free_calls == OLD(g_free_calls))
+#else
+#define X_DISCARD_HEAP __CPROVER_ensures(g_free_calls == OLD(g_free_calls))
+#endif
+/* nothing at all changes (a stale cancellation) */
+#define X_UNCHANGED \
+	(C1->request_id == OLD(C1->request_id) && C1->req_msg == OLD(C1->req_msg) && C1->rep_msg == OLD(C1->rep_msg) && C1->recv_aio == OLD(C1->recv_aio) && C1->send_aio == OLD(C1->send_aio) && \
+	    C1->conn_reset == OLD(C1->conn_reset) && X_LISTS_PRE && g_fin_calls == OLD(g_fin_calls) && g_free_calls == OLD(g_free_calls) && \
+	    g_rr.idm_has == OLD(g_rr.idm_has) && g_rr.idm_remove_calls == OLD(g_rr.idm_remove_calls) && g_rr.idm_other_ops == OLD(g_rr.idm_other_ops) && g_pollr == OLD(g_pollr) && g_pollw == OLD(g_pollw))
+
+/* ====================================================================== */
+/* req0_ctx_cancel_recv (C04: cancelling a pending receive discards the outstanding request; C02: exactly that
+ * aio completes, once, with the given error; C03) */
+static void req0_ctx_cancel_recv(nni_aio *aio, void *arg, nng_err rv)
+__CPROVER_requires(X_CTX_PRE && arg == g_c1 && aio == AIO_A && VP_NO_LOCK_HELD)
+__CPROVER_requires(X_MSGS_PRE)
+__CPROVER_assigns(X_CTX_ASSIGNS)
+X_RESET_FREES
+X_PIPE_ASSIGNS
+#if X_ST == 1
+__CPROVER_assigns(C1->send_aio->a_msg, C1->req_msg->m_header_len)
+#endif
+__CPROVER_ensures(VP_NO_LOCK_HELD && g_start_calls == OLD(g_start_calls) && g_pipe_send_calls == OLD(g_pipe_send_calls) && g_pipe_close_calls == OLD(g_pipe_close_calls))
+#if X_RA == 1
+/* the aio IS the pending receive: it completes now, once, with rv; the request is discarded */
+__CPROVER_ensures(g_fin_last == aio && g_fin_last_rv == (int) rv && C1->recv_aio == NULL)
+__CPROVER_ensures(X_DISCARDED)
+__CPROVER_ensures(X_ID_RELEASED)
+#if X_ST == 1
+/* the request had not left yet: the pending send fails with NNG_ECANCELED and gets its message back (bare) */
+__CPROVER_ensures(g_fin_calls == OLD(g_fin_calls) + 2 && g_fin_prev == OLD(C1->send_aio) && g_fin_prev_rv == NNG_ECANCELED && g_fin_prev_msg == OLD(C1->req_msg))
+__CPROVER_ensures(OLD(C1->send_aio)->a_msg == OLD(C1->req_msg) && OLD(C1->req_msg)->m_header_len == 0 && OLD(C1->req_msg)->m_refcnt.v == OLD(C1->req_msg->m_refcnt.v))
+#else
+__CPROVER_ensures(g_fin_calls == OLD(g_fin_calls) + 1)
+#endif
+X_DISCARD_HEAP
+#elif !defined(X_STALE_SPEC)
+/* the aio is NOT the pending receive (it completed or was superseded in the meantime).  As the code stands: a
+ * request still waiting for a pipe is cancelled all the same (see not_decided / observations in spec.json) */
+#if X_ST == 1
+__CPROVER_ensures(g_fin_calls == OLD(g_fin_calls) + 1 && g_fin_last == OLD(C1->send_aio) && g_fin_last_rv == NNG_ECANCELED && g_fin_last_msg == OLD(C1->req_msg) && C1->send_aio == NULL && C1->req_msg == NULL)
+__CPROVER_ensures(OLD(C1->send_aio)->a_msg == OLD(C1->req_msg) && OLD(C1->req_msg)->m_header_len == 0 && OLD(C1->req_msg)->m_refcnt.v == OLD(C1->req_msg->m_refcnt.v) && g_free_calls == OLD(g_free_calls))
+__CPROVER_ensures(C1->recv_aio == OLD(C1->recv_aio) && LIST_IS_EMPTY(&SOCK->send_queue) && NODE_IDLE(&C1->send_node))
+#else
+__CPROVER_ensures(X_UNCHANGED)
+#endif
+#else
+/* the aio is NOT the pending receive: a stale cancellation changes nothing */
+__CPROVER_ensures(X_UNCHANGED)
+#endif
+;
+
+/* ====================================================================== */
+/* req0_ctx_cancel_send (C03: the message goes back to the caller with the aio; C02: exactly that aio completes
+ * once with the given error; C04: the request is discarded, and no receive is left waiting for its reply) */
+static void req0_ctx_cancel_send(nni_aio *aio, void *arg, nng_err rv)
+__CPROVER_requires(X_CTX_PRE && arg == g_c1 && aio == AIO_A && VP_NO_LOCK_HELD)
+__CPROVER_requires(X_MSGS_PRE)
+__CPROVER_assigns(X_CTX_ASSIGNS)
+X_RESET_FREES
+X_PIPE_ASSIGNS
+#if X_ST == 1
+__CPROVER_assigns(C1->send_aio->a_msg, C1->req_msg->m_header_len)
+#endif
+__CPROVER_ensures(VP_NO_LOCK_HELD && g_start_calls == OLD(g_start_calls) && g_pipe_send_calls == OLD(g_pipe_send_calls) && g_pipe_close_calls == OLD(g_pipe_close_calls))
+#if X_ST == 1 && X_SA == 1
+__CPROVER_ensures(g_fin_last == aio && g_fin_last_rv == (int) rv && g_fin_last_msg == OLD(C1->req_msg))
+/* the message is the caller's again: attached to the aio, bare (no request id header), not released */
+__CPROVER_ensures(aio->a_msg == OLD(C1->req_msg) && aio->a_msg->m_header_len == 0 && aio->a_msg->m_refcnt.v == OLD(C1->req_msg->m_refcnt.v) && g_free_calls == OLD(g_free_calls))
+__CPROVER_ensures(X_DISCARDED)
+__CPROVER_ensures(X_ID_RELEASED)
+#if X_RA == 0
+__CPROVER_ensures(g_fin_calls == OLD(g_fin_calls) + 1 && C1->recv_aio == NULL)
+#else
+/* a receive started before the send completed waits for the reply of the request that is now gone: it must
+ * not be left pending; it fails with NNG_ECANCELED (as when a new request supersedes it), once */
+__CPROVER_ensures(g_fin_calls == OLD(g_fin_calls) + 2 && C1->recv_aio == NULL && g_fin_prev == OLD(C1->recv_aio) && g_fin_prev_rv == NNG_ECANCELED)
+#endif
+#else
+__CPROVER_ensures(X_UNCHANGED)
+#endif
+;
+
+/* ====================================================================== */
+/* req0_retry_cb (C12: tick timer scanning the retry schedule).  Every context whose resend deadline has passed and
+ * that still has a request is put on the send queue (once) and the queue is run; the tick timer is re-armed iff
+ * somebody is still on the retry schedule, and `retry_active` says exactly whether it is armed (so that the next
+ * request re-arms it).  -DRT_N=n contexts C1..Cn on the retry schedule (0..2); -DRT_RP=1: a pipe P1 is ready;
+ * -DRT_Q1=1: C1 already waits on the send queue; -DRT_DUE1/-DRT_DUE2: -1 deadline and request symbolic (only
+ * with RT_RP=0), 1 due (request outstanding, deadline == now), 0 not due (deadline == now + 1).  Outstanding
+ * contexts are on the context list of a busy pipe P3. */
+#ifndef RT_N
+#define RT_N 0
+#endif
+#ifndef RT_RP
+#define RT_RP 0
+#endif
+#ifndef RT_Q1
+#define RT_Q1 0
+#endif
+#ifndef RT_DUE1
+#define RT_DUE1 (-1)
+#endif
+#ifndef RT_DUE2
+#define RT_DUE2 (-1)
+#endif
+#define RT_S ((req0_sock *) arg)
+#define RT_RUNS (!OLD(RT_S->closed) && RT_S->retry_aio.a_result == 0)
+#define RT_DUE(c) ((c)->retry_time <= g_now && (c)->req_msg != NULL)
+#define RT_CTX_PRE(c) (CTX_OK(c) && (c)->req_retry > 0 && (c)->send_aio == NULL && ((c)->req_msg == NULL || MSGOBJ_PRE((c)->req_msg)))
+static void req0_retry_cb(void *arg)
+__CPROVER_requires(SOCK_PRE && arg == g_sock && VP_NO_LOCK_HELD)
+/* the callback runs because the timer was armed, and whoever arms it sets the flag (req0_ctx_send) */
+__CPROVER_requires(SOCK->retry_active)
+#if RT_N == 0
+__CPROVER_requires(LIST_IS_EMPTY(&SOCK->retry_queue) && LIST_IS_EMPTY(&SOCK->send_queue))
+#elif RT_N == 1
+__CPROVER_requires(RT_CTX_PRE(C1) && LIST_IS_ONE(&SOCK->retry_queue, &C1->retry_node))
+#else
+__CPROVER_requires(RT_CTX_PRE(C1) && RT_CTX_PRE(C2) && DISTINCT(g_c1, g_c2) && LIST_IS_TWO(&SOCK->retry_queue, &C1->retry_node, &C2->retry_node) && NODE_IDLE(&C2->send_node) && NODE_IDLE(&C2->pipe_node))
+#endif
+#if RT_N >= 1
+#if RT_Q1 == 1
+__CPROVER_requires(LIST_IS_ONE(&SOCK->send_queue, &C1->send_node))
+#else
+__CPROVER_requires(LIST_IS_EMPTY(&SOCK->send_queue) && NODE_IDLE(&C1->send_node))
+#endif
+__CPROVER_requires(PIPE_OK(g_pp3) && LIST_IS_ONE(&SOCK->busy_pipes, &P3->node) && LIST_IS_ONE(&P3->contexts, &C1->pipe_node))
+#if RT_DUE1 == 1
+__CPROVER_requires(C1->req_msg != NULL && C1->retry_time == g_now)
+#elif RT_DUE1 == 0
+__CPROVER_requires(C1->retry_time == g_now + 1 && g_now < 0xffffffffffffULL)
+#endif
+#if RT_N == 2 && RT_DUE2 == 1
+__CPROVER_requires(C2->req_msg != NULL && C2->retry_time == g_now)
+#elif RT_N == 2 && RT_DUE2 == 0
+__CPROVER_requires(C2->retry_time == g_now + 1 && g_now < 0xffffffffffffULL)
+#endif
+#else
+__CPROVER_requires(LIST_IS_EMPTY(&SOCK->busy_pipes))
+#endif
+#if RT_RP == 1
+__CPROVER_requires(PIPE_OK(g_p1) && LIST_IS_ONE(&SOCK->ready_pipes, &P1->node) && LIST_IS_EMPTY(&P1->contexts))
+#else
+__CPROVER_requires(LIST_IS_EMPTY(&SOCK->ready_pipes))
+#endif
+__CPROVER_assigns(SOCK->retry_active, SOCK->send_queue.ll_head, SOCK->retry_queue.ll_head, SOCK->ready_pipes.ll_head, SOCK->busy_pipes.ll_head, VP_PROTO_GHOST_LIST, VP_RR_GHOST_LIST, VP_SYNC_GHOSTS, VPX_FIN_GHOSTS)
+#if RT_N >= 1
+__CPROVER_assigns(C1->send_node, C1->retry_node, C1->pipe_node, C1->send_aio, P3->contexts.ll_head, P3->node; C1->req_msg != NULL: C1->req_msg->m_refcnt)
+#endif
+#if RT_N == 2
+__CPROVER_assigns(C2->send_node, C2->retry_node, C2->pipe_node, C2->send_aio; C2->req_msg != NULL: C2->req_msg->m_refcnt)
+#endif
+#if RT_RP == 1
+__CPROVER_assigns(P1->node, P1->contexts.ll_head, P1->aio_send.a_msg)
+#endif
+__CPROVER_ensures(VP_NO_LOCK_HELD && g_fin_calls == OLD(g_fin_calls) && g_rr.comp_added == OLD(g_rr.comp_added) && g_start_calls == OLD(g_start_calls))
+/* socket closed or timer aborted: nothing happens (and nothing is re-armed) */
+__CPROVER_ensures(!RT_RUNS ==> (g_rr.sleep_calls == OLD(g_rr.sleep_calls) && RT_S->retry_active == OLD(RT_S->retry_active) && g_pipe_send_calls == OLD(g_pipe_send_calls)))
+#if RT_N >= 1
+__CPROVER_ensures(!RT_RUNS ==> ((RT_Q1 ? LIST_IS_ONE(&SOCK->send_queue, &C1->send_node) : (LIST_IS_EMPTY(&SOCK->send_queue) && NODE_IDLE(&C1->send_node))) && LIST_IS_ONE(&P3->contexts, &C1->pipe_node)))
+#endif
+#if RT_N == 0
+/* nobody is scheduled: the timer stops and the flag says so */
+__CPROVER_ensures(RT_RUNS ==> (g_rr.sleep_calls == OLD(g_rr.sleep_calls) && !RT_S->retry_active && LIST_IS_EMPTY(&SOCK->send_queue) && g_pipe_send_calls == OLD(g_pipe_send_calls)))
+#else
+/* somebody is still scheduled: the tick timer is re-armed, once, and the flag stays set */
+__CPROVER_ensures(RT_RUNS ==> (g_rr.sleep_calls == OLD(g_rr.sleep_calls) + 1 && g_rr.sleep_aio == &RT_S->retry_aio && g_rr.sleep_ms == RT_S->retry_tick && RT_S->retry_active))
+#if RT_RP == 0
+/* no pipe is ready: the due requests wait on the send queue, each once, in schedule order; nothing is sent,
+ * the retry schedule and the pipes' context lists are not changed by the scan */
+__CPROVER_ensures(g_pipe_send_calls == OLD(g_pipe_send_calls) && LIST_IS_ONE(&P3->contexts, &C1->pipe_node) && LIST_IS_ONE(&SOCK->busy_pipes, &P3->node))
+#if RT_N == 1
+__CPROVER_ensures(RT_RUNS ==> ((RT_DUE(C1) || RT_Q1) ? LIST_IS_ONE(&SOCK->send_queue, &C1->send_node) : (LIST_IS_EMPTY(&SOCK->send_queue) && NODE_IDLE(&C1->send_node))))
+__CPROVER_ensures(LIST_IS_ONE(&SOCK->retry_queue, &C1->retry_node))
+#else
+__CPROVER_ensures((RT_RUNS && (RT_DUE(C1) || RT_Q1) && RT_DUE(C2)) ==> LIST_IS_TWO(&SOCK->send_queue, &C1->send_node, &C2->send_node))
+__CPROVER_ensures((RT_RUNS && (RT_DUE(C1) || RT_Q1) && !RT_DUE(C2)) ==> (LIST_IS_ONE(&SOCK->send_queue, &C1->send_node) && NODE_IDLE(&C2->send_node)))
+__CPROVER_ensures((RT_RUNS && !(RT_DUE(C1) || RT_Q1) && RT_DUE(C2)) ==> (LIST_IS_ONE(&SOCK->send_queue, &C2->send_node) && NODE_IDLE(&C1->send_node)))
+__CPROVER_ensures((RT_RUNS && !(RT_DUE(C1) || RT_Q1) && !RT_DUE(C2)) ==> (LIST_IS_EMPTY(&SOCK->send_queue) && NODE_IDLE(&C1->send_node) && NODE_IDLE(&C2->send_node)))
+__CPROVER_ensures(LIST_IS_TWO(&SOCK->retry_queue, &C1->retry_node, &C2->retry_node))
+#endif
+#else
+/* a pipe P1 is ready (deadlines concrete in these shapes): the first due request goes out on it at once: it is
+ * on P1's context list and no longer on P3's, a further clone is retained, it stays on the retry schedule */
+#if RT_DUE1 == 1
+#define RT_FIRST C1
+#elif RT_N == 2 && RT_DUE2 == 1
+#define RT_FIRST C2
+#endif
+#ifdef RT_FIRST
+__CPROVER_ensures(RT_RUNS ==> (g_pipe_send_calls == OLD(g_pipe_send_calls) + 1 && g_pipe_send_pipe == P1->pipe && g_pipe_send_aio == &P1->aio_send && g_pipe_send_msg == RT_FIRST->req_msg))
+__CPROVER_ensures(RT_RUNS ==> (LIST_IS_ONE(&P1->contexts, &RT_FIRST->pipe_node) && NODE_IDLE(&RT_FIRST->send_node) && P1->aio_send.a_msg == RT_FIRST->req_msg && RT_FIRST->req_msg == OLD(RT_FIRST->req_msg) && RT_FIRST->req_msg->m_refcnt.v == OLD(RT_FIRST->req_msg->m_refcnt.v) + 1))
+__CPROVER_ensures(RT_RUNS ==> (LIST_IS_EMPTY(&SOCK->ready_pipes) && LIST_IS_TWO(&SOCK->busy_pipes, &P3->node, &P1->node) && !g_pollw))
+#if RT_DUE1 == 1
+__CPROVER_ensures(RT_RUNS ==> LIST_IS_EMPTY(&P3->contexts))
+#if RT_N == 1
+__CPROVER_ensures(RT_RUNS ==> (LIST_IS_EMPTY(&SOCK->send_queue) && LIST_IS_ONE(&SOCK->retry_queue, &C1->retry_node)))
+#elif RT_DUE2 == 1
+/* the second due request waits for the next pipe */
+__CPROVER_ensures(RT_RUNS ==> (LIST_IS_ONE(&SOCK->send_queue, &C2->send_node) && NODE_IDLE(&C2->pipe_node) && C2->req_msg->m_refcnt.v == OLD(C2->req_msg->m_refcnt.v) && LIST_IS_TWO(&SOCK->retry_queue, &C2->retry_node, &C1->retry_node)))
+#else
+__CPROVER_ensures(RT_RUNS ==> (LIST_IS_EMPTY(&SOCK->send_queue) && NODE_IDLE(&C2->send_node) && NODE_IDLE(&C2->pipe_node) && LIST_IS_TWO(&SOCK->retry_queue, &C2->retry_node, &C1->retry_node)))
+#endif
+#else
+__CPROVER_ensures(RT_RUNS ==> (LIST_IS_ONE(&P3->contexts, &C1->pipe_node) && NODE_IDLE(&C1->send_node) && LIST_IS_EMPTY(&SOCK->send_queue) && LIST_IS_TWO(&SOCK->retry_queue, &C1->retry_node, &C2->retry_node)))
+#endif
+#else
+/* nobody is due: nothing is sent, nothing moves */
+__CPROVER_ensures(g_pipe_send_calls == OLD(g_pipe_send_calls) && LIST_IS_ONE(&SOCK->ready_pipes, &P1->node) && LIST_IS_ONE(&SOCK->busy_pipes, &P3->node) && LIST_IS_EMPTY(&SOCK->send_queue) && LIST_IS_ONE(&P3->contexts, &C1->pipe_node) && g_pollw == OLD(g_pollw))
+#endif
 #endif
 #endif
 ;
